@@ -359,4 +359,19 @@ theorem inits_code (e : Endian) (rom : Nat → Byte) (glob : String → Nat) (g 
       (fun st hst => stepOK_of_check e g lk hlk st (hsteps st hst)) hlen pdu hpdu m
   · cases hm
 
+/-- What `initsCheck` says about one current-API initialiser record (used by the legacy initialisers). -/
+theorem stepsOK_of_initsCheck (e : Endian) (g : GenFormat) (fns : List Fn) (lk : List (String × Fn))
+    (hlk : lookupsOK e lk) (h : initsCheck g fns lk = true) (i0 : Init) (hi : i0 ∈ g.inits) (hleg : i0.legacy = false) :
+    (∀ st ∈ i0.steps, StepOK e g st) ∧ i0.steps.length ≤ 6 ∧
+      ∃ F ∈ fns, F.name = i0.fn ∧ some F.body = expectedInitBody g i0 := by
+  simp only [initsCheck, List.all_eq_true] at h
+  have hi' := h i0 hi
+  simp only [hleg, Bool.false_or, Bool.and_eq_true, List.all_eq_true, decide_eq_true_eq] at hi'
+  obtain ⟨⟨hsteps, hlen⟩, hm⟩ := hi'
+  refine ⟨fun st hst => stepOK_of_check e g lk hlk st (hsteps st hst), hlen, ?_⟩
+  split at hm
+  · rename_i F hfind
+    exact ⟨F, List.mem_of_find?_eq_some hfind, by have := List.find?_some hfind; simpa using this, by simpa using hm⟩
+  · cases hm
+
 end O1722.Refine
